@@ -76,6 +76,11 @@ def main():
     rc, out = sh(["git", "-C", "/repo", "status", "--short"], ROOT)
     if out.strip():
         raise SystemExit("/repo is not clean: " + out)
+    ev_keep = {}
+    for c in checks:
+        ev = os.path.join(ROOT, "evidence", c + ".json")
+        if os.path.exists(ev):
+            ev_keep[ev] = open(ev).read()  # evidence describes the unchanged tree: put it back afterwards
     results = {}
     try:
         rc, out = sh(["git", "-C", "/repo", "apply", f"{stash}/{var}/patch.diff"], ROOT)
@@ -93,6 +98,8 @@ def main():
                     shutil.copy(rp, os.path.join(dst, f"replay-{c}.txt"))
     finally:
         sh(["git", "-C", "/repo", "checkout", "--", "."], ROOT)
+        for ev, txt in ev_keep.items():
+            open(ev, "w").write(txt)
     rc, out = sh(["git", "-C", "/repo", "status", "--short"], ROOT)
     assert not out.strip(), out
     meta["checks"] = results
